@@ -30,13 +30,27 @@ KEEP = {WK + 'Worker::handle_connection', SH + 'WorkerHandle::shutdown', WK + 'W
         SH + 'Acceptor::poll_inboxes'}
 
 
+_serve = {}
+
+
+def serve_fn(ctx):
+    """the function that serves one accepted connection: the (only) function of pavex::server that registers a connection with the
+    GracefulShutdown coordinator (`watch`) — `Worker::handle_connection` today, whatever it is called or wherever it lives tomorrow"""
+    k = id(ctx.fb)
+    if k not in _serve:
+        c = sorted({b.nroot for b in ctx.fb.bodies(CR) if not b.is_promoted and b.nid.startswith('pavex::server::')
+                    and any(callee(t) == 'hyper_util::server::graceful::GracefulShutdown::watch' for _, t in b.calls())})
+        _serve[k] = c[0] if len(c) == 1 else WK + 'Worker::handle_connection'
+    return _serve[k]
+
+
 def coroutine_of(ctx, rule, item):
     """the async body of `item`, with the private (sync or async) helpers it was split into inlined (P13); the functions the rules
     anchor on are kept as calls"""
     from ..inline import inlined
     bs = [b for b in ctx.fb.bodies_of_item(CR, item) if b.is_coroutine and b.nid == item + '::{closure#0}']
     b = ctx.need(rule, 'async body of ' + item, bs[0] if len(bs) == 1 else None)
-    return inlined(ctx.fb, b, keep=KEEP) if b is not None else None
+    return inlined(ctx.fb, b, keep=KEEP | {serve_fn(ctx)}) if b is not None else None
 
 
 def blocks_calling(body, name, pred=None):
@@ -156,7 +170,7 @@ def r2_worker(ctx):
     touts = [(bb, t) for bb, t in b.calls() if callee(t) in (TIMEOUT, TIMEOUT.replace('::timeout::timeout', '::timeout::timeout_at'))]
     sends = blocks_calling(b, SEND1)
     gs = blocks_calling(b, 'hyper_util::server::graceful::GracefulShutdown::shutdown')
-    hc = blocks_calling(b, WK + 'Worker::handle_connection')
+    hc = blocks_calling(b, serve_fn(ctx))
     for what, v in (('close()', close), ('recv()', recv), ('timeout()', touts), ('completion send', sends), ('GracefulShutdown::shutdown', gs)):
         ctx.need('C16.R2', what + ' in Worker::run', v)
     if not (close and recv and touts and sends and gs):
@@ -208,7 +222,7 @@ def r2_worker(ctx):
 def r3_tracked(ctx):
     ctx.rule('C16.R3', 'P7: in Worker::handle_connection the future handed to spawn_local derives from GracefulShutdown::watch(serve_connection(..)) '
              '— every served connection is tracked by the coordinator that graceful shutdown waits on.')
-    b = ctx.need('C16.R3', 'Worker::handle_connection', ctx.fb.body(CR, WK + 'Worker::handle_connection'))
+    b = ctx.need('C16.R3', 'Worker::handle_connection', ctx.fb.body(CR, serve_fn(ctx)))
     if b is None:
         return
     sp = [(bb, t) for bb, t in b.calls() if callee(t) == 'tokio::task::local::spawn_local']
@@ -229,7 +243,7 @@ def r3_tracked(ctx):
         for bb, t in x.calls():
             if callee(t) == 'hyper_util::server::conn::auto::Builder::serve_connection':
                 n += 1
-                ctx.ob('C16.R3', 'serve_connection-site|%s' % x.nroot.split('::')[-1], x.nroot == WK + 'Worker::handle_connection', x.loc(bb, t),
+                ctx.ob('C16.R3', 'serve_connection-site|%s' % x.nroot.split('::')[-1], x.nroot == serve_fn(ctx), x.loc(bb, t),
                        'serve_connection called in %s' % x.nroot)
     ctx.floor('C16.R3', 'serve_connection call sites', n, 1)
 
@@ -323,7 +337,7 @@ def r7_queued_started(ctx):
         return
     recv = blocks_calling(b, 'tokio::sync::mpsc::bounded::Receiver::recv')
     gs = blocks_calling(b, 'hyper_util::server::graceful::GracefulShutdown::shutdown')
-    hc = blocks_calling(b, WK + 'Worker::handle_connection')
+    hc = blocks_calling(b, serve_fn(ctx))
     if not (ctx.need('C16.R7', 'recv() in Worker::run', recv) and ctx.need('C16.R7', 'GracefulShutdown::shutdown in Worker::run', gs)):
         return
     drained = [h for h in hc if h in b.reachable(b.succ(recv[0]), avoid=gs) and recv[0] in b.reachable(b.succ(h), avoid=gs)]
